@@ -475,6 +475,31 @@ def intersect(S, kind):
     S.prove_eq(val, ref, "intersection(%s).transform(raw) = transform onto [max lower, min upper]" % kind)
 
 
+def intersect_mixed(S, first):
+    """a lower-bounded and an upper-bounded constraint (GreaterThan / Positive with LessThan, in either order) intersect in a BOUNDED
+       interval: its transform must map every raw value into [lower, upper] (monotone, onto the open interval), and
+       register_constraint(replace=False) installs it"""
+    from gpytorch.constraints import Interval, GreaterThan, LessThan, Positive
+    raw = S.randn(2, scale=3.0)
+    R = S.sym_tensor(raw, "raw")
+    lo_v, hi_v = (0.0 if first == "positive" else 0.1), 2.0
+    with S.mode():
+        g = Positive() if first == "positive" else GreaterThan(lo_v)
+        l = LessThan(hi_v)
+        c = S.must_not_raise("intersect of a lower- and an upper-bounded constraint", lambda: (l.intersect(g) if first == "less" else g.intersect(l)))
+        val = as_sym_arr(SH.get(c.transform(raw)))
+        back = as_sym_arr(SH.get(c.inverse_transform(c.transform(raw))))
+        k = gpytorch.kernels.RBFKernel(lengthscale_constraint=g if first != "less" else l)
+        S.must_not_raise("register_constraint(replace=False) with the opposite bound", lambda: k.register_constraint("raw_lengthscale", l if first != "less" else g, replace=False))
+        kval = as_sym_arr(SH.get(k.raw_lengthscale_constraint.transform(raw)))
+    S.check_concrete(float(c.lower_bound) == lo_v and float(c.upper_bound) == hi_v, "bounds of the intersection", "%s %s" % (float(c.lower_bound), float(c.upper_bound)))
+    for nm, v in (("intersection", val), ("constraint installed by register_constraint(replace=False)", kval)):
+        for i in range(2):
+            S.prove_ge(v[i], Sym.const(lo_v), "%s: transform(raw)[%d] >= lower bound for every raw value" % (nm, i))
+            S.prove_ge(Sym.const(hi_v), v[i], "%s: transform(raw)[%d] <= upper bound for every raw value" % (nm, i))
+    S.prove_eq(back, R, "inverse_transform(transform(raw)) = raw on the intersection")
+
+
 def prior_expand(S, kind):
     """prior.expand(batch_shape): the same density (hyper-parameters AND transform carried), still a Prior, original untouched;
        MultivariateNormalPrior built from a covariance matrix exposes scale_tril / precision_matrix"""
@@ -621,6 +646,8 @@ def scenarios(tier, seed):
         add("prior_reassign", kind=kind)
     for kind in ("interval", "greater", "less"):
         add("intersect", kind=kind)
+    for first in ("greater", "less", "positive"):
+        add("intersect_mixed", first=first)
     for kind in ("normal", "gamma", "halfnormal", "halfcauchy", "horseshoe", "lognormal", "mvn", "mvn_cov"):
         add("prior_expand", kind=kind)
     add("registered_prior")
